@@ -211,7 +211,22 @@ def make_case(rng, allow_method_change=False, faults_ok=False, geoms=GEOMS, np_c
         final.update(rng.choice(METHOD_SETTINGS))
     ops.append({"op": "regrid", "s": final})
     ops.append({"op": "write"})
+    if rng.random() < 0.3:
+        ops.insert(rng.randrange(0, len(ops) - 1), other_mesh_op(rng, geom))
     return {"workload": wl, "s0": s0, "ops": ops}
+
+
+def other_mesh_op(rng, geom):
+    """See _other_mesh: mostly a circular mesh (one region, 2 s), at times a tokamak of
+    another topology."""
+    if rng.random() < 0.8:
+        o = workloads.circ_options(rng, orthogonal=False)
+        return {"op": "other_mesh", "geometry": "circ", "options": o,
+                "s": {"nonorthogonal_xpoint_poloidal_spacing_length": rng.choice((0.8, 1.2)),
+                      "nonorthogonal_xpoint_poloidal_spacing_range": rng.choice((0.05, 0.1))},
+                "geometry_too": rng.random() < 0.5}
+    g2 = rng.choice([g for g in ("lsn", "cdn") if g != geom])
+    return {"op": "other_mesh", "geometry": g2, "s": dict(rng.choice(settings_pool(g2)))}
 
 
 def method_of(s):
@@ -243,6 +258,33 @@ def _build(wl, nonorth, refine_timeout=None):
     # `base` holds no nonorthogonal_* key: every regrid passes base + its own settings, as
     # a fresh build with those settings would
     return base, eq, mesh
+
+
+def _other_mesh(op):
+    """Another mesh of another topology, built, regridded and dropped in the same
+    interpreter (a GUI session that loads the next case; a script looping over cases).
+    Nothing of it may reach the mesh under test."""
+    try:
+        if op["geometry"] == "circ":
+            eq, mesh = workloads.build_circular(op["options"])
+            full = op["options"]
+        else:
+            wl = {"geometry": op["geometry"], "guards": 0, "wall": "rect", "np": 1}
+            full, eq, mesh = _build(wl, {})
+        mesh.calculateRZ()
+        mesh.redistributePoints(dict(full, **op["s"]))
+        mesh.calculateRZ()
+        if op.get("geometry_too"):
+            mesh.geometry()
+        return "ok"
+    except SimAbort:
+        raise
+    except Exception as e:  # noqa: BLE001
+        if isinstance(e, core.HarnessError):
+            raise
+        return "raised:" + type(e).__name__
+    finally:
+        eq = mesh = None
 
 
 def endpoints(mesh):
@@ -335,7 +377,8 @@ def run_case(case, refdir=None, keep_log=False):
     violation = None
     probes = {"refused_then_success": 0, "raised_halfway": 0, "returns_to_earlier": 0,
               "writes_before_final": 0, "fault_fired": 0,
-              "write_after_failed_regrid_judged": 0, "refusal_injected": 0}
+              "write_after_failed_regrid_judged": 0, "refusal_injected": 0,
+              "other_mesh_regridded": 0}
     observed = {}
     worst_endpoint = 0.0
     hist_path = os.path.join(d, "hist.nc")
@@ -362,6 +405,10 @@ def run_case(case, refdir=None, keep_log=False):
             nwrites = 0
             psi_all = None
             for k, op in enumerate(case["ops"]):
+                if op["op"] == "other_mesh":
+                    outcomes.append(["other_mesh", _other_mesh(op)])
+                    probes["other_mesh_regridded"] += 1
+                    continue
                 if op["op"] == "write":
                     try:
                         mesh.geometry()
@@ -522,6 +569,8 @@ def shape_of(case):
     for op in case["ops"]:
         if op["op"] == "write":
             sig.append("W")
+        elif op["op"] == "other_mesh":
+            sig.append("M" + op["geometry"])
         else:
             tag = "R"
             if "junk" in op:
